@@ -5,7 +5,11 @@ A program (JSON-able dict):
   pre:  [ {tgt, kind, time, daemon, hook, cancelled} ]         pre-run events, in scheduling order
   defs: [ {ent, kind, gen, segs: [ {acts: [...], term: [...]} ]} ]
     acts: ["E", tgt, kind, delay_ns, daemon, hook] | ["EP", tgt, kind, back_ns, daemon] | ["X", kind] | ["R", f, v] | ["A", f, g...] |
-          ["L", f, g...] | ["N", f] | ["C", ent] | ["U", ent] | ["AH", kind, hook] | ["M", ent, abs(0/1), v]
+          ["L", f, g...] | ["N", f] | ["C", ent] | ["U", ent] | ["AH", kind, hook] | ["M", ent, abs(0/1), v] |
+          ["RL", tgt, kind, delay_ns, limit, daemon]
+      RL: hop counter kept in the event's metadata: h = event.get_context("hops") or 0; if h < limit the handler stamps
+          the delivered event (add_context("hops", h + 1)) and forwards a fresh event whose metadata carries hops = h + 1
+  pre entries may carry "hops": h (the metadata the event is scheduled with)
       v of R: an int (= "n<int>") or a value token: none | n7 | a<kind>.<x> | p(<i>,<flat>) | l[<flat>,…]   (see `py_val`)
       AH: add_completion_hook on the most recently created event of that kind (whatever state it is in)
       M:  entity.level = v / entity.level = (entity.level or 0) + v
@@ -114,6 +118,14 @@ class _WarnCounter(logging.Handler):
             pass
 
 
+class Diverged(Exception):
+    """raised by a scripted entity when the run has made more deliveries than any generated program can
+    legitimately cause: the run is cut there and judged as it stands"""
+
+
+DELIVERY_CAP = 1500     # generated programs stay far below (a few hundred deliveries with the longest tick chains)
+
+
 class Harness:
     def __init__(self, prog):
         from happysimulator.core.entity import Entity
@@ -127,6 +139,7 @@ class Harness:
         self.trace = []    # judge input (superset, with creations)
         self.tagc = 0
         self.npid = 0
+        self.ndeliv = 0    # handler entries of the current run (delivery cap)
         self.last_kind = {}
         self.last_epoch = {}   # kind -> epoch (number of reset() calls so far) in which that handle was created
         self.epoch = 0
@@ -148,6 +161,9 @@ class Harness:
                 self._crashed = False
 
             def handle_event(self, event):
+                H.ndeliv += 1
+                if H.ndeliv > DELIVERY_CAP:
+                    raise Diverged()
                 kind = int(event.event_type[1:])
                 meta = event.context.get("metadata") or {}
                 tag = meta.get("tag", 0)
@@ -161,17 +177,18 @@ class Harness:
                 H.trace.append(f"S {now} {self.idx} {kind} {tag} {event.time.nanoseconds}")
                 pid = H.npid
                 H.npid += 1
+                ctx = (event, meta.get("hops") or 0)
                 if d["gen"]:
                     self.inflight += 1
-                    return self._gen(d, pid, event)
-                evs = H.run_acts(self, d["segs"][0]["acts"])
+                    return self._gen(d, pid, event, ctx)
+                evs = H.run_acts(self, d["segs"][0]["acts"], ctx)
                 H.emit_log(f"F {self.now.nanoseconds} {pid}")
                 return evs
 
-            def _gen(self, d, pid, event):
+            def _gen(self, d, pid, event, ctx):
                 outbox = []     # one list object reused for every `yield delay, events` of this process
                 for seg in d["segs"]:
-                    pending = H.run_acts(self, seg["acts"])
+                    pending = H.run_acts(self, seg["acts"], ctx)
                     if d.get("reuse_list"):
                         if pending:
                             outbox.clear()
@@ -221,10 +238,13 @@ class Harness:
             self.futs[f] = self.SimFuture()
         return self.futs[f]
 
-    def make_event(self, time_ns, tgt, kind, daemon, hook, clock_ns):
+    def make_event(self, time_ns, tgt, kind, daemon, hook, clock_ns, hops=None):
         tag = self.next_tag()
+        meta = {"tag": tag}
+        if hops is not None:
+            meta["hops"] = hops
         ev = self.Event(time=self.Instant(time_ns), event_type=f"k{kind}", target=self.ents[tgt],
-                        daemon=bool(daemon), context={"metadata": {"tag": tag}})
+                        daemon=bool(daemon), context={"metadata": meta})
         self.trace.append(f"c {tag} {time_ns} {tgt} {kind} {1 if daemon else 0} {clock_ns}")
         self.last_kind[kind] = (ev, tag)
         self.last_epoch[kind] = self.epoch
@@ -240,7 +260,7 @@ class Harness:
             return self.make_event(t, 0, 1000 + hk, False, 0, t)
         return hook
 
-    def run_acts(self, ent, acts):
+    def run_acts(self, ent, acts, ctx=None):
         out = []
         for a in acts:
             now = ent.now.nanoseconds
@@ -273,6 +293,12 @@ class Harness:
                     p[0].add_completion_hook(self.make_hook(a[2]))
                     # (a handle from before a reset() refers to an event of the discarded heap)
                     self.trace.append(f"h {p[1]} {a[2]}" if self.last_epoch.get(a[1], 0) == self.epoch else f"ho {p[1]} {a[2]}")
+            elif op == "RL":
+                _, tgt, kind, dns, limit, dm = a
+                event, hops = ctx
+                if hops < limit:
+                    event.add_context("hops", hops + 1)      # stamp the delivered event …
+                    out.append(self.make_event(now + dns, tgt, kind, dm, 0, now, hops=hops + 1))   # … and forward a copy
             elif op == "M":
                 e = self.ents[a[1]]
                 v = a[3] if a[2] else (e.level or 0) + a[3]
@@ -308,7 +334,7 @@ class Harness:
         kw.update(sim_kwargs)
         self.sim = Simulation(**kw)
         for p in self.prog["pre"]:
-            ev = self.make_event(p["time"], p["tgt"], p["kind"], p["daemon"], p["hook"], 0)
+            ev = self.make_event(p["time"], p["tgt"], p["kind"], p["daemon"], p["hook"], 0, hops=p.get("hops"))
             self.sim.schedule(ev)
             self.pre_specs.append((self.tagc, p["time"], p["tgt"], p["kind"], p["daemon"]))
             if p.get("cancelled"):
@@ -342,6 +368,7 @@ class Harness:
         metadata is copied) as creations of the new epoch.  Entity-side state is deliberately kept."""
         self.sim.control.reset()
         self.epoch += 1
+        self.ndeliv = 0
         self.emit_log("RST")
         for tag, t, tgt, kind, dm in self.pre_specs:
             self.trace.append(f"c {tag} {t} {tgt} {kind} {1 if dm else 0} 0")
@@ -355,6 +382,7 @@ class Harness:
         self.trace.clear()
         self.tagc = len(self.pre_specs)
         self.npid = 0
+        self.ndeliv = 0
         self.last_kind.clear()
         for e in self.ents:
             e.inflight = 0
@@ -372,17 +400,28 @@ class Harness:
         lg.propagate = False
         if lg.getEffectiveLevel() > logging.WARNING:
             lg.setLevel(logging.WARNING)
+        diverged = False
         try:
             if driver is None:
                 summary = self.sim.run()
             else:
                 summary = driver(self.sim)
+        except Diverged:
+            # the run did not stop by itself: cut here; the trace up to this point is judged (an
+            # auto-terminating run that goes on delivering with no live non-daemon event pending, …)
+            diverged = True
+            summary = None
         finally:
             lg.removeHandler(wc)
             lg.propagate = old_prop
             lg.setLevel(old_level)
         now = self.ents[0].now.nanoseconds
         end = self.prog.get("end")
+        if diverged:
+            self.emit_log(f"diverged {now} {DELIVERY_CAP}")
+            self.end_line = f"end {now} diverged"
+            self.trace.append(f"end {now} {'inf' if end is None else end}")
+            return self.log + [self.end_line]
         self.end_line = f"end {now} {summary.total_events_processed} {summary.events_cancelled} {wc.time_travel} 1"
         self.trace.append(f"end {now} {'inf' if end is None else end}")
         return self.log + [self.end_line]
@@ -408,8 +447,10 @@ def program_lines(prog):
     lines = [f"ents {prog['ents']}"]
     for x, v in sorted((prog.get("levels") or {}).items()):
         lines.append(f"lvl {x} {v}")
-    for p in prog["pre"]:
+    for i, p in enumerate(prog["pre"]):
         lines.append(f"pre {p['tgt']} {p['kind']} {p['time']} {1 if p['daemon'] else 0} {p['hook']} {1 if p.get('cancelled') else 0}")
+        if p.get("hops"):
+            lines.append(f"hop {i} {p['hops']}")
     for hd in prog.get("held", []):
         lines.append(f"held {hd['tgt']} {hd['kind']} {hd['time']} {1 if hd['daemon'] else 0}")
     for d in prog["defs"]:
@@ -423,6 +464,8 @@ def program_lines(prog):
                     acts.append(f"{a[0]} {a[1]} {a[2]} {a[3]} {1 if a[4] else 0}")
                 elif a[0] == "R":
                     acts.append(f"R {a[1]} {val_tok(a[2])}")
+                elif a[0] == "RL":
+                    acts.append(f"RL {a[1]} {a[2]} {a[3]} {a[4]} {1 if a[5] else 0}")
                 else:
                     acts.append(" ".join(str(x) for x in a))
             t = seg["term"]
